@@ -9,3 +9,33 @@ prop("C03", [
     "'in-order' means after the last in-order delivered event (C02's notion of a late arrival)",
     "record types that end an event: PROCTITLE, <=1299, >=2100; EOE completes a buffered event"],
    nontrivial_classes=["history-with-loss", "history-with-late-or-duplicate-delivery", "history-crossing-seam"])
+
+REASM_ASSUME = ["record types that end an event: PROCTITLE, <=1299, >=2100; EOE completes a buffered event",
+                "the harness' Stream recorder and bookkeeping are trusted; the Reassembler is driven from one goroutine"]
+
+prop("C01", [
+    S(REASM, "^TestC01Regress$", kind="plain"),
+    S(REASM, "^TestC01$", q=20000, t=200000, shards=16),
+], REASM_ASSUME, nontrivial_classes=["history-with-eviction-of-incomplete-event", "history-with-reused-sequence",
+                                     "history-with-Push-parsed-record", "history-with-EOE-completion"])
+
+prop("C02", [
+    S(REASM, "^TestC02Regress$", kind="plain"),
+    S(REASM, "^TestC02$", q=20000, t=200000, shards=16),
+], REASM_ASSUME + ["sequence numbers of a history lie in one 2^24 window (stated by the property)"],
+   nontrivial_classes=["history-with-out-of-order-buffering", "history-straddling-seam", "history-with-late-arrival"])
+
+prop("C10", [
+    S(REASM, "^TestC10Regress$", kind="plain"),
+    S(REASM, "^TestC10$", q=20000, t=200000, shards=16),
+], REASM_ASSUME + ["timeout is 1h so that expiry cannot be a cause (as the property's quantifier says)",
+                   "sequence numbers of a history lie in one 2^24 window"],
+   nontrivial_classes=["history-with-overflow-eviction", "history-with-complete-event-waiting"])
+
+prop("C19", [
+    S(REASM, "^TestC19Regress$", kind="plain"),
+    S(REASM, "^TestC19$", q=4000, t=40000, shards=16),
+], REASM_ASSUME + ["time is real: expiry is decided three-valued from harness clock brackets; only definite answers are asserted",
+                   "no push is made after Close (the property does not say what it does)"],
+   nontrivial_classes=["history-with-timeout-only-delivery", "history-with-call-after-close",
+                       "decision-definitely-expired", "decision-definitely-live"])
